@@ -275,6 +275,8 @@ pub struct Obs {
     pub gen: Option<u16>,
     pub drew: bool,
     pub items: Vec<String>,
+    /// (address, sp, fp) after each successful iterator step (C10: no state twice).
+    pub states: Vec<(u64, u64, u64)>,
 }
 
 fn stats_arr(s: &CacheStats) -> [u64; 4] {
@@ -440,6 +442,7 @@ impl<H: ArchH> World<H> {
                 let unw = &self.unws[u];
                 let cache = self.caches.get_mut(c).unwrap();
                 let mut items = Vec::new();
+                let mut states: Vec<(u64, u64, u64)> = Vec::new();
                 let mut rs = |a: u64| mem.read(a);
                 let r = catch(|| {
                     let mut it = unw.iter_frames(*pc, H::to_fh(regs), cache, &mut rs);
@@ -461,6 +464,10 @@ impl<H: ArchH> World<H> {
                             extra -= 1;
                         }
                         finished = finished || fin;
+                        if let Ok(Some(fa)) = &item {
+                            let g = H::from_fh(it.verif_regs());
+                            states.push((fa.address(), g.sp(), g.fp()));
+                        }
                         items.push(show_item(&item));
                     }
                     // the iterator owns the registers; expose them through a final clone
@@ -468,6 +475,7 @@ impl<H: ArchH> World<H> {
                 });
                 let st = H::stats(cache);
                 obs.items = items.clone();
+                obs.states = states;
                 match r {
                     Ok(after) => format!("items={} {} {}", items.join(","), after.show(), show_stats(&st)),
                     Err(loc) => {
